@@ -19,7 +19,8 @@ const rule = "random histories under virtual time with the DB started: multi-ope
 	"non-trivial = a retained snapshot was re-queried after a later commit; distinct = hash of the operation log"
 
 var opts = dbsim.Opts{Tables: 2, Txns: 40, MaxOps: 8, ProbesPerIndex: 4, AbortPct: 20, Iterators: true, Retain: 16, Initializers: true,
-	Report: map[string]bool{"frozen": true}}
+	// (a write transaction is also a snapshot of the tables it does not hold: what Next(wtxn) delivers belongs to it)
+	Report: map[string]bool{"frozen": true, "changes/uncommitted-update": true, "changes/uncommitted-delete": true}}
 
 func TestVerif_Snapshots(t *testing.T) {
 	r := vkit.Start(t, "C01", "snapshots", "exploration", rule)
